@@ -1093,7 +1093,10 @@ def suspect_of(it, kinds):
 def modes_of(e):
     if flag(e, "X86_ONLY"):
         return ["x86"]
-    if flag(e, "WITH_REXW"):        # REX.W / VEX.W cannot be encoded in protected mode ("Does not support 64 bit operand size in 32-bit mode")
+    if flag(e, "WITH_REXW"):
+        # REX.W does not exist in protected mode. VEX.W / XOP.W does where it is part of the opcode: the forms without a general purpose operand
+        if (flag(e, "VEX_OP") or flag(e, "XOP_OP")) and not any(c in "rv" or "A" <= c <= "P" for (c, _) in slots(e)):
+            return ["x64", "x86"]
         return ["x64"]
     return ["x64", "x86"]
 
